@@ -47,6 +47,21 @@ impl SN for f32 {
         }
     }
 }
+impl SN for Option<noisy_float::types::N64> {
+    const NAME: &'static str = "Option<N64>";
+    fn mk(r: usize) -> Option<noisy_float::types::N64> {
+        Some(n64([-2.5, -0.0, 0.75, 3.0, 3.5, 1e9, 2e9][r]))
+    }
+    fn missing() -> Option<noisy_float::types::N64> {
+        None
+    }
+    fn key(&self) -> i64 {
+        match self {
+            None => i64::MIN,
+            Some(v) => (v.raw() + 0.0).to_bits() as i64,
+        }
+    }
+}
 impl SN for Option<i32> {
     const NAME: &'static str = "Option<i32>";
     fn mk(r: usize) -> Option<i32> {
@@ -228,10 +243,15 @@ where
                 0
             }
             Ok(Err(e)) => {
-                lx.fail("C14/quantile-skipnan-error", || format!("returned {:?}: {}", e, desc()));
+                // the plain routine reports EmptyInput exactly when the chosen axis has length 0
+                lx.check(shape[axis] == 0, "C14/quantile-skipnan-error", || format!("returned {:?}: {}", e, desc()));
                 1
             }
             Ok(Ok(res)) => {
+                if shape[axis] == 0 {
+                    lx.fail("C14/quantile-skipnan-missing-error", || format!("axis of length 0 accepted: {}", desc()));
+                    return 2;
+                }
                 let flat: Vec<A> = res.iter().cloned().collect();
                 let mut want_shape = shape.to_vec();
                 want_shape.remove(axis);
@@ -318,7 +338,7 @@ fn contentn<A: SN>(c: &CaseN) -> Vec<A> {
                 0 => false,
                 1 => true,
                 2 => i == 0,
-                3 => i == n - 1,
+                3 => i + 1 == n,
                 f => ((i * 7 + f * 3) % 5) < 2 || (f % 3 == 0 && i % 3 == 0),
             };
             if miss {
@@ -367,9 +387,9 @@ fn main() {
         for mask in 0u32..(1 << n) {
             let k = n - mask.count_ones() as usize;
             for pat in weak_orders(k) {
-                for ty in 0..3u8 {
-                    // f32 only on every other pattern (same code path as f64 through the macro)
-                    if ty == 1 && (mask as usize + pat.len()) % 2 == 1 {
+                for ty in 0..4u8 {
+                    // f32 and Option<N64> only on every other pattern
+                    if (ty == 1 || ty == 3) && (mask as usize + pat.len() + ty as usize) % 2 == 1 {
                         continue;
                     }
                     cases.push(Case1 { n, mask, pat: pat.clone(), ty });
@@ -380,7 +400,7 @@ fn main() {
     let eq = extra_q.clone();
     rep.run_sub(
         "one-dimensional",
-        &format!("every missing-value mask of length 0..={} x every weak-order pattern of the remaining elements x f64 / f32 / Option<i32>; folds, visits, arg/min/max on strides {{1,2,-1}}; quantile_axis_skipnan_mut over a q grid (boundaries +-1ulp, plus {} extra points) x 5 strategies x ALL pivot sequences, on contiguous / stepped / reversed views", nmax, extra_q.len()),
+        &format!("every missing-value mask of length 0..={} x every weak-order pattern of the remaining elements x f64 / f32 / Option<i32> / Option<N64>; folds, visits, arg/min/max on strides {{1,2,-1}}; quantile_axis_skipnan_mut over a q grid (boundaries +-1ulp, plus {} extra points) x 5 strategies x ALL pivot sequences, on contiguous / stepped / reversed views", nmax, extra_q.len()),
         cases.into_iter(),
         move |c, lx| {
             let miss = c.mask.count_ones() as usize;
@@ -391,20 +411,24 @@ fn main() {
             match c.ty {
                 0 => run1::<f64>(c, &eq, lx),
                 1 => run1::<f32>(c, &eq, lx),
+                3 => run1::<Option<noisy_float::types::N64>>(c, &eq, lx),
                 _ => run1::<Option<i32>>(c, &eq, lx),
             }
         },
     );
     let dev = rep.cfg.pick(1, 2);
     let thorough = rep.cfg.thorough();
-    let shapes: Vec<Vec<usize>> = if thorough { vec![vec![2, 3], vec![3, 2], vec![1, 4], vec![2, 2, 3], vec![3, 2, 2]] } else { vec![vec![2, 3], vec![3, 2], vec![2, 2, 3]] };
+    let shapes: Vec<Vec<usize>> = if thorough { vec![vec![2, 3], vec![3, 2], vec![1, 4], vec![4, 1], vec![0, 3], vec![3, 0], vec![2, 2, 3], vec![3, 2, 2], vec![2, 1, 2]] } else { vec![vec![2, 3], vec![3, 2], vec![1, 3], vec![3, 1], vec![0, 3], vec![3, 0], vec![2, 2, 3], vec![2, 1, 2]] };
     let mut cases: Vec<CaseN> = Vec::new();
     for shape in &shapes {
         let d = shape.len();
         for l in all_layouts(d, &[1, 2, -1, -2]) {
             let nf = if thorough { 16 } else { 10 };
             for family in 0..nf {
-                for ty in [0u8, 2] {
+                for ty in [0u8, 2, 3] {
+                    if ty == 3 && family % 2 == 1 {
+                        continue;
+                    }
                     cases.push(CaseN { shape: shape.clone(), layout: l.clone(), family, ty });
                 }
             }
@@ -418,6 +442,7 @@ fn main() {
             lx.nontrivial(c.family >= 2);
             match c.ty {
                 0 => runn::<f64>(c, dev, lx),
+                3 => runn::<Option<noisy_float::types::N64>>(c, dev, lx),
                 _ => runn::<Option<i32>>(c, dev, lx),
             }
         },
